@@ -52,6 +52,10 @@ def run(ctx):
                        "paths (a leading `./` is dropped), so where expand_glob records a match it tests the pattern for a "
                        "`./` prefix (or builds the word from a value set under that test) - otherwise `./-rf*` hands "
                        "`-rf.txt` to the command")
+    ctx.rule("R12-15", "`non-hidden` is decided per match by its LAST component: in expand_glob every test `starts_with('.')` / "
+                       "`starts_with(\".*\")` that hides a match or lifts the hiding is applied to the last path component "
+                       "(the text after the last `/`, through the same textual helper as R12-9) of the match resp. of the "
+                       "pattern - a test over all components lets `.conf/*` list `.conf/.secret` and hides `a/.b/c`")
     ctx.rule("R12-4", "the home directory is not interpreted as a regex replacement template")
     for crate in ctx.crates:
         res = etag.run_sites(ctx, "R12-1", crate, fn_filter=lambda p: p in PASSES)
@@ -77,6 +81,7 @@ def run(ctx):
         curdir_prefix_rule(ctx, crate)
         home_current_rule(ctx, crate)
         dot_entries_rule(ctx, crate)
+        hidden_by_last_component_rule(ctx, crate)
 
 
 def tag_rule(ctx, crate, b):
@@ -695,3 +700,37 @@ def curdir_prefix_rule(ctx, crate):
            key="R12-14|%s|curdir-prefix" % b.path, where=b.loc((bad or [sites[0][0]])[0]), crate=crate.kind,
            detail=None if not bad else "a match is recorded as glob yields it: for a pattern that starts with `./` the produced "
            "words lack the prefix (`ls ./-rf*` runs `ls -rf.txt`)")
+
+
+def hidden_by_last_component_rule(ctx, crate):
+    b = crate.fn("shell::expand_glob")
+    if not ctx.require(b is not None, "R12-15", "R12-15|anchor", "shell::expand_glob not found"):
+        return
+    sites = []
+    bodies = [b] + crate.closures_of(b.path)
+    for fb in bodies:
+        for bb, t, c in fb.calls():
+            if last_seg(c) != "starts_with" or "str" not in c:
+                continue
+            a = fb.call_args(bb)
+            if len(a) < 2:
+                continue
+            lit = mir.const_char(a[1]) or const_str(fb.expand_vars(strip_sites(a[1])))
+            if lit not in (".", ".*"):
+                continue
+            subj = fb.expand_vars(strip_sites(a[0]))
+            last = any(x[0] == "call" and (last_seg(x[1]) in ("basename", "rsplit", "rsplit_once", "rfind", "rsplitn", "file_name")
+                                           or (crate.fn(x[1]) is not None and any(
+                                               last_seg(c2) in ("rsplit", "rfind", "rsplit_once", "rsplitn")
+                                               for b2, t2, c2 in crate.fn(x[1]).calls())))
+                       for x in mir.subexprs(subj))
+            sites.append((fb, bb, lit, last))
+    if not ctx.require(len(sites) >= 2, "R12-15", "R12-15|%s|tests" % b.path,
+                       "expected the two dot tests of expand_glob (pattern and match), found %d" % len(sites), b.path):
+        return
+    bad = [(fb, bb, lit) for fb, bb, lit, last in sites if not last]
+    ctx.ob("R12-15", b.path, "the %d dot tests look at the last path component" % len(sites), not bad,
+           key="R12-15|%s|last-component" % b.path, where=(bad[0][0].loc(bad[0][1]) if bad else None), crate=crate.kind,
+           detail=None if not bad else "a dot test is applied to something other than the last component (a whole path, or each "
+           "component): a hidden directory spelled out in the pattern makes `*` match hidden entries below it, and a match "
+           "below a hidden directory that `*` did not produce is dropped")
